@@ -45,6 +45,8 @@ MCArgs(name, h, dep) ==
     [] name = "CvCopy" -> {[obj |-> "a"]}
     [] name = "CvFraction" -> {[obj |-> "a"]}
     [] name = "CvDerivate" -> {[obj |-> "a"]}
+    [] name = "CvIntegrate" -> IF h["a"].W = <<>> THEN {[obj |-> "a", method |-> "default", nnodes |-> 0]} ELSE {}
+    [] name = "CvFitCurve" -> {[obj |-> "b", other |-> AsCurve(h["a"]), nodes |-> <<>>]}   \* fitting ANOTHER curve to a: a is only read
     [] name = "CvJoin" -> {[obj |-> "a", other |-> [Other(U) EXCEPT !.U = ShiftKV(U, Sub(Umax(U), Umin(U))).kv]],
                            [obj |-> "a", other |-> Other(U)]}
     [] OTHER -> {}
